@@ -88,8 +88,8 @@ def _impl_once(case):
     rec = []
     orig = A._hash_dir
 
-    def recording(d):
-        h = orig(d)
+    def recording(d, skip=None):
+        h = orig(d, skip=skip)
         entry = dict(hashes=h)
         if not rec:
             meta = {}
@@ -97,6 +97,9 @@ def _impl_once(case):
                 if p.is_file() and p.suffix == '.npy':
                     a = np.load(p, mmap_mode='r')
                     meta[p.name] = dict(shape=list(a.shape))
+                    if a.size <= 4096:
+                        # content of the source tables the conversion copies (judged against the output files)
+                        meta[p.name].update(dtype=str(a.dtype), flat=_flat(np.asarray(a)))
                     if p.name in ('spike_clusters.npy', 'spike_templates.npy'):
                         meta[p.name]['vals'] = [int(x) for x in np.asarray(a).ravel()]
                     del a
@@ -110,6 +113,38 @@ def _impl_once(case):
         A._hash_dir = orig
     res['listings'] = rec
     return res
+
+
+def _flat(a):
+    a = np.asarray(a)
+    return [None if (isinstance(x, float) and x != x) else x for x in a.ravel().tolist()]
+
+
+def _copied_content(ok, mod):
+    """CONTENT of the files the conversion copies (`_FILE_RENAMES`): the model tags a verbatim copy with the digest of its
+    source file - the real output file must have the same bytes (params.py, cluster_KSLabel.tsv,
+    _kilosort_whitening.matrix.npy, channels.localCoordinates, channels.probes/labels, clusters.probes/shanks, drift*) -
+    and a re-saved (n,1) vector with `squeeze:`+digest: same dtype, same values, one dimension."""
+    src_h, meta = ok['listings'][0]['hashes'], ok['listings'][0].get('npy') or {}
+    by_tag = {}
+    for n, h in src_h.items():
+        by_tag.setdefault(h[:16], n)
+    for e in mod['out']:
+        name, tag = e['name'], e['tag']
+        base = tag.split(':')[-1]
+        if base not in by_tag or name not in ok['out_hashes'] or tag.startswith('u16:'):
+            continue          # computed by the export ("new"), or an id table (values compared through `vals`)
+        if tag == base:
+            if ok['out_hashes'][name][:16] != base:
+                return 'CORR: %s is not a byte-identical copy of the source file %s' % (name, by_tag[base])
+        elif tag == 'squeeze:' + base:
+            sm_, o = meta.get(by_tag[base]), ok['arrays'].get(name)
+            if sm_ is None or 'flat' not in sm_ or o is None:
+                continue
+            if o['dtype'] != sm_['dtype'] or len(o['shape']) != 1 or _flat(np.array(o['vals'], dtype=object)) != sm_['flat']:
+                return 'CORR: %s is not the squeezed copy of the source file %s (dtype %s/%s, shape %s)' % (
+                    name, by_tag[base], o['dtype'], sm_['dtype'], o['shape'])
+    return None
 
 
 def _dir_entries(hashes, npy=None):
@@ -300,6 +335,24 @@ def judge(case, impl_res, ans):
     for name in have:
         if name.split('.')[0] in FAMILIES and name not in mout:
             return 'CORR: the real output holds the object file %s that the model does not write' % name
+    why = _copied_content(ok, mod)
+    if why:
+        return why
+    # the C04 loader model applied to the WHOLE model output directory (`project`, theorem convert_output_loads) against
+    # the real reload of the real output directory: it loads, and shows the same samples and id tables
+    rl = mod.get('reload')
+    if rl is not None:
+        if rl.get('err') is not None:
+            return 'CORR: the loader model fails on the projected model output (%s), the real output loads' % rl['err']
+        fr = ok['fresh']
+        for key, mk in (('spike_samples', 'samples'), ('spike_clusters', 'sc'), ('spike_templates', 'st')):
+            stem = {'samples': 'spikes.samples', 'sc': 'spikes.clusters', 'st': 'spikes.templates'}[mk]
+            e = mout.get(stem + ('.%s' % label if label else '') + '.npy')
+            if e is not None and e['vals'] is not None and rl[mk] != fr[key]:
+                return 'CORR: %s of the reloaded real output differs from the loader model on the projected model output' % key
+        if rl['n_times'] != len(fr['spike_times']) or rl['n_channels'] != len(fr['channel_mapping']) or not rl['has_templates']:
+            return 'CORR: loader model on the projected output: %d times, %d channels, templates %s; real reload %d, %d' % (
+                rl['n_times'], rl['n_channels'], rl['has_templates'], len(fr['spike_times']), len(fr['channel_mapping']))
     # the file table of Model/C13.lean (theorem export_table_written)
     for name, rows in mod['table']:
         if have.get(name) != rows:
@@ -462,5 +515,6 @@ def gen(tier, rng):
                                   curated=(i % 3 == 0))
             yield dict(p=PID, spec=spec2, rs=i, twice=[[['', 1], ['probe00', 1]], [['', 1], ['', 2.5]], [['a', 2.5], ['b', 1], ['a', 2.5]]][(i // 7) % 3])
             continue
+        # every 7th plain case converts into src/alf (the target INSIDE the source directory)
         yield dict(p=PID, spec=spec, factor=[1, 2.5][i % 2], label=label, temp_wh=(i % 4 == 0), rs=i,
-                   reexport=(i % 5 == 2 and label == ''))
+                   reexport=(i % 5 == 2 and label == ''), out_inside=(i % 7 == 2))
